@@ -51,7 +51,9 @@ fn fusable(r: &mut Rng) -> Vec<String> {
         let o = if o == "$match-case" && !(pat.starts_with('/') && pat.ends_with('/')) { "" } else { o };
         let o = if pat.is_empty() && o.is_empty() { "$image" } else { o };
         let rp;
-        let modcat = if modcat == Some("removeparam") { rp = format!("removeparam={}", r.pick(gen::PARAMS)); Some(rp.as_str()) } else { modcat };
+        let modcat = if modcat == Some("removeparam") { rp = format!("removeparam={}", r.pick(gen::PARAMS)); Some(rp.as_str()) }
+            else if modcat == Some("redirect=noop.js") { rp = format!("redirect={}", r.pick(&["noop.js", "noop.txt", "noop.js:5", "noop.txt:5"])); Some(rp.as_str()) }
+            else { modcat };
         let o = match modcat {
             Some(m) if r.chance(3, 4) => if o.is_empty() { format!("${}", m) } else { format!("{},{}", o, m) },
             _ => o.to_string(),
@@ -65,12 +67,22 @@ fn fusable(r: &mut Rng) -> Vec<String> {
         let d1 = r.pick(gen::DOMAINS);
         let d2 = r.pick(gen::DOMAINS);
         let t = r.pick(&["script", "image", "font"]);
-        v.push(format!("${},domain={}|{}", t, d1, d2));
+        let md = |r: &mut Rng| -> String {
+            match modcat {
+                Some("redirect=noop.js") => format!(",redirect={}", r.pick(&["noop.js", "noop.txt"])),
+                Some(m) if m.starts_with("csp") => format!(",{}", m),
+                _ => String::new(),
+            }
+        };
+        let t = if modcat.map(|m| m.starts_with("csp")).unwrap_or(false) { "third-party" } else { t };
+        let m1 = md(r);
+        v.push(format!("${}{},domain={}|{}", t, m1, d1, d2));
         let k = r.range(1, 3);
         for _ in 0..k {
-            let t2 = r.pick(&["script", "image", "font", "xhr"]);
+            let t2 = if modcat.map(|m| m.starts_with("csp")).unwrap_or(false) { "third-party" } else { r.pick(&["script", "image", "font", "xhr"]) };
             let pat = if r.chance(1, 2) { String::new() } else { format!("/{}", r.pick(&["a", "b"])) };
-            v.push(format!("{}${},domain={}", pat, t2, if r.chance(2, 3) { d1 } else { d2 }));
+            let m2 = md(r);
+            v.push(format!("{}${}{},domain={}", pat, t2, m2, if r.chance(2, 3) { d1 } else { d2 }));
         }
     }
     if r.chance(1, 3) {
@@ -223,6 +235,19 @@ fn main() {
                         json!({"rules": lines, "tags": tags, "url": url, "source": src, "type": ty}));
                 }
             }
+        }
+    }
+    // corpus: F31 (repaired in /repo e89168f) -- two equal-priority redirect rules, one of them stored
+    // in several buckets: the redirect answer must not depend on optimisation
+    for v in ["script", "script,third-party", "script,~image", "script,~font", "script,~media", "script,~object", "script,~ping"] {
+        let lines: Vec<String> = vec![format!("${},redirect=noop.js,domain=a.com|b.com", v), "$script,redirect=noop.txt,domain=a.com".into()];
+        let (off, on, live) = blockers(&lines, &[]);
+        let req = Request::new("https://x.com/foo.js", "https://a.com/", "script").unwrap();
+        sm.oracle_evaluations += 1;
+        let (o0, o1, o2) = (observe(&off, &rs, &req), observe(&on, &rs, &req), observe(&live, &rs, &req));
+        if o0 != o1 || o0 != o2 {
+            sm.failure(None, &format!("redirect depends on optimisation: unoptimized {:?} / built optimized {:?} / after optimize() {:?}", o0.redirect, o1.redirect, o2.redirect),
+                json!({"rules": lines, "tags": [], "url": "https://x.com/foo.js", "source": "https://a.com/", "type": "script"}));
         }
     }
     // corpus entry for the known class
